@@ -299,6 +299,11 @@ def rule_fresh(ctx: Ctx, rep: Report) -> None:
                    "argument may be mutated: " + "; ".join(f"L{ln} {how}" for ln, how in ev[:3]))
             rep.ob(rule, f"{q}({p}):fresh_return", p not in s.returns, fi.where(),
                    "returned root is fresh" if p not in s.returns else "the returned object is (part of) the argument")
+            shallow = [c for c in own_nodes(fi.node) if isinstance(c, ast.Call) and call_name(c) in ("replace", "copy", "_replace") and c.args
+                       and isinstance(c.args[0], ast.Name) and c.args[0].id == p]
+            rep.ob(rule, f"{q}({p}):no_shallow_copy", not shallow, fi.where(shallow[0] if shallow else None),
+                   "no shallow copy of the argument" if not shallow else
+                   f"`{norm(shallow[0])[:50]}` makes a new root that shares every input and output map with the argument: updating the result updates the psbt that was handed in")
     rep.floor(rule, 20)
     # in-place protocol roles write only their own protocol's fields
     for modname, allowed in IN_PLACE.items():
@@ -563,7 +568,35 @@ def rule_params_forwarded_(ctx: Ctx, rep: Report) -> None:
     rule_params_forwarded(ctx, rep, "C11.params_forwarded", ('btclib.psbt.psbt', 'btclib.psbt.psbt_in', 'btclib.psbt.psbt_out', 'btclib.psbt.psbt_utils'), 100)
 
 
+def rule_unchanged_is_equality(ctx: Ctx, rep: Report) -> None:
+    """C11.unchanged_is_equality: "the answer differs from the request by added
+    signatures only" compares every other field of every map with `!=`, and
+    skips a field for one reason: it is a signature field. In the loop of
+    `_assert_unchanged` every `continue` is under the signature-field test --
+    a shortcut on the values' truthiness ("both empty") makes None and 0 one
+    value, and 0 is a label, a sequence, a hash type."""
+    rule = "C11.unchanged_is_equality"
+    fi = ctx.func(f"{P}._assert_unchanged")
+    g = ctx.cfg(fi)
+    loops = [n for n in own_nodes(fi.node) if isinstance(n, ast.For) and isinstance(n.iter, ast.Call) and call_name(n.iter) == "fields"]
+    if not loops:
+        rep.unknown(rule, "_assert_unchanged", fi.where(), "no loop over fields(...): shape not recognised")
+        return
+    conts = [c for c in ast.walk(loops[0]) if isinstance(c, ast.Continue)]
+    for c in conts:
+        facts = [str(t) for t, p_ in g.facts_at_ast(c) if p_] if False else []
+        par = parent(c)
+        test = str(norm(par.test)) if isinstance(par, ast.If) else ""
+        ok = "_SIGNATURE_FIELDS" in test
+        rep.ob(rule, f"skip:{test[:50]}", ok, fi.where(c), "a signature field is skipped" if ok else
+               f"a field is skipped under `{test[:60]}`: values that differ (None against 0 / b'' / an empty map) pass as unchanged")
+    cmp_ = [x for x in ast.walk(loops[0]) if isinstance(x, ast.Compare) and isinstance(x.ops[0], ast.NotEq)]
+    rep.ob(rule, "compares_with_ne", bool(cmp_), fi.where(loops[0]), "fields are compared with !=")
+    rep.floor(rule, 2)
+
+
 RULES = [
+    ("C11.unchanged_is_equality", rule_unchanged_is_equality),
     ("C11.params_forwarded", rule_params_forwarded_),
     ("C11.own_fields", rule_own_fields),
     ("C11.combine_fields", rule_combine_fields),
@@ -577,6 +610,9 @@ RULES = [
 ]
 
 CONTROLS = [
+    {"rule": "C11.unchanged_is_equality", "name": "two falsy values count as unchanged", "module": P,
+     "edit": lambda ctx: M.sub_expr(ctx, f"{P}._assert_unchanged", lambda n: isinstance(n, ast.If) and "!=" in norm(n.test) and "getattr" in norm(n.test),
+                                    lambda n: "was, now = getattr(request_map, field.name), getattr(returned_map, field.name)\n        if not was and not now:\n            continue\n        if now != was:\n            raise BTClibValueError(f'{what}: {field.name} was changed')")},
     {"rule": "C11.own_fields", "name": "PsbtIn.assert_valid checks the sha256 preimages of nobody", "module": "btclib.psbt.psbt_in",
      "edit": lambda ctx: M.sub_expr(ctx, "btclib.psbt.psbt_in.PsbtIn.assert_valid", lambda n: isinstance(n, ast.Call) and call_name(n) == "_assert_valid_sha256_preimages", "_assert_valid_sha256_preimages()")},
     {"rule": "C11.combine_fields", "name": "combine forgets witness_script of outputs", "module": P,
